@@ -60,7 +60,7 @@ func checkC05(c *Ctx) {
 	// R2
 	nTok := 0
 	for _, f := range m.Funcs {
-		if f == m.Ctor {
+		if m.isCtorCode(f) {
 			continue
 		}
 		eachInstr(f, func(in ssa.Instruction) {
